@@ -895,6 +895,26 @@ func (ev *evalEnv) call(e *Expr) tv {
 		}
 		ref := ev.evalInt(e.A[1])
 		return ev.selField(tv{v: &Val{K: KPtr, T: []string{ref}}, t: types.NewPointer(o.Type())}, e.A[0].Name)
+	case "inited":
+		// inited(s, lo, hi): bytes s[lo:hi] have been written since the window they belong to was handed out (C07)
+		if len(e.A) != 3 {
+			ev.fail("inited(slice, lo, hi)")
+		}
+		sl := ev.eval(e.A[0])
+		if sl.v == nil || sl.v.K != KSlice {
+			ev.fail("inited(slice, lo, hi)")
+		}
+		lo, hi := ev.evalInt(e.A[1]), ev.evalInt(e.A[2])
+		if !c.initOn() {
+			return mathBool("true")
+		}
+		saved := c.st
+		c.st = ev.st
+		c.em.regKey(initKey, "Bool", true)
+		h := c.heapGet(initKey)
+		c.st = saved
+		k := c.em.fresh("qi")
+		return mathBool(fmt.Sprintf("(forall ((%s Int)) (=> (and (<= %s %s) (< %s %s)) (select (select %s %s) (+ %s %s))))", k, lo, k, k, hi, h, sl.v.T[0], sl.v.T[1], k))
 	case "sbview":
 		// sbview(b): the contents of a SerializeBuffer as a byte sequence (abstract view of the interface contract)
 		b := ev.eval(e.A[0])
